@@ -354,7 +354,14 @@ func (index *collectionSimpleIndex) Delete(
 	ctx context.Context,
 	doc *client.Document,
 ) error {
+	// equal elements of a JSON array yield the same key: it is deleted once
+	deleted := make(map[string]struct{})
 	return index.generateKeysAndProcess(ctx, doc, true, func(key keys.IndexDataStoreKey) error {
+		keyStr := string(key.Bytes())
+		if _, ok := deleted[keyStr]; ok {
+			return nil
+		}
+		deleted[keyStr] = struct{}{}
 		return index.deleteIndexKey(ctx, key)
 	})
 }
